@@ -25,5 +25,6 @@ MC_INIT
     register_shims<std::less<int>>("");
     register_shims<std::greater<int>>("_greater");
     register_shims<c02::HalfLess>("_half_less");
+    mc::add_check("compat_std_map_record_key", [] { c02::rec_key_body<std::map<c02::Rec, int>, c02::NoStdRec>("compat_std_map"); });
 }
 MC_MAIN
